@@ -12,6 +12,7 @@ shuffle -> tokenize) and edge permuters.
 from __future__ import annotations
 
 import ast
+import re
 
 from sa import astx as X
 from sa import normal as N
@@ -229,30 +230,27 @@ def rule_T6(ctx: Ctx) -> None:
     g = ctx.index.func(f"{MT}.AdjListTokenizers._AdjListTokenizer._tokenize_edge_grouping")
     co = X.assignments_to(g.node, "cxn_ord")
     ok0 = len(co) == 1 and X.same_expr(co[0], "group_params['connection_token_ordinal']")
-    ifs = [n for n in g.node.body if isinstance(n, ast.If) and X.U(n.test).replace('"', "'") == "group_params['grouped']"]
-    if len(ifs) != 1:
-        ctx.unknown(g, {}, "branch on group_params['grouped']")
-        return
-    ung = ifs[0].orelse
-    perm = [s for s in ung if isinstance(s, ast.Assign) and X.U(s.targets[0]) == "callable_permutation"]
-    ins = [s for s in ung if isinstance(s, ast.Expr) and X.same_expr(s.value, "callable_permutation.insert(cxn_ord, 1)")]
+    perms = [n for n in ast.walk(g.node) if isinstance(n, (ast.Assign, ast.AnnAssign)) and X.U(n.targets[0] if isinstance(n, ast.Assign) else n.target) == "callable_permutation"]
+    perm = [n for n in perms if isinstance(n.value, ast.List)]
+    gp = [n for n in perms if isinstance(n.value, ast.IfExp)]
+    ins = [n for n in ast.walk(g.node) if isinstance(n, ast.Expr) and X.same_expr(n.value, "callable_permutation.insert(cxn_ord, 1)")]
     ev = Evaluator()
     results = {}
     ok = ok0 and len(perm) == 1 and len(ins) == 1
     if ok:
         base = ev.ev(perm[0].value, {})
         for o in (0, 1, 2):
-            p = list(base)
-            p.insert(o, 1)
-            results[o] = p
+            p_ = list(base)
+            p_.insert(o, 1)
+            results[o] = p_
         ok = results == {0: [1, 0, 2], 1: [0, 1, 2], 2: [0, 2, 1]}
     ctx.judge(g, ok, {"ordinal_to_order(0=lead,1=connector,2=trail)": {str(k): v for k, v in results.items()}},
               "ungrouped edges: leading coord and trailing part keep their order, the connector/wall token sits at connection_token_ordinal (0, 1 or 2)",
               "the connector appears at another position than configured / the two coordinates are swapped")
-    # grouped branch: [1, 2] if ordinal 0 else [2, 1]
-    grp = ifs[0].body
-    gp = [s for s in grp if isinstance(s, (ast.Assign, ast.AnnAssign)) and X.U(s.targets[0] if isinstance(s, ast.Assign) else s.target) == "callable_permutation"]
-    ctx.judge(g, len(gp) == 1 and X.same_expr(gp[0].value, "[1, 2] if cxn_ord == 0 else [2, 1]"), {"grouped": X.U(gp[0].value) if gp else None},
+    # grouped branch: [1, 2] if ordinal 0 else [2, 1], under group_params['grouped']
+    par = X.parents_map(g.node)
+    under_grouped = bool(gp) and isinstance(par.get(gp[0]), ast.If) and X.U(par[gp[0]].test).replace('"', "'") == "group_params['grouped']"
+    ctx.judge(g, len(gp) == 1 and under_grouped and X.same_expr(gp[0].value, "[1, 2] if cxn_ord == 0 else [2, 1]"), {"grouped": X.U(gp[0].value) if gp else None},
               "grouped edges: connector before the trailing part iff the ordinal is 0")
     u = ctx.index.cls(f"{MT}.EdgeGroupings.Ungrouped")
     f = u.fields.get("connection_token_ordinal")
@@ -406,21 +404,17 @@ def rule_T9(ctx: Ctx) -> None:
             table.append((X.U(n.test), (dotted_of(rs[0].value) or "").split(".")[-1]))
     want_tbl = [("np.array_equal(coords[1], coords[2])", "PATH_STAY"), ("np.array_equal(coords[0], coords[2])", "PATH_BACKWARD"),
                 ("np.array_equal(directions[0], directions[1])", "PATH_FORWARD")]
-    ok = table == want_tbl
+    # the turn direction: (after normalisation a `match` is an if-ladder) tests `<cross product z> == +-1`
+    cases = {}
+    head = table[:3]
+    ok = head == want_tbl
     dd = X.assignments_to(gr.node, "directions")
     ok = ok and bool(dd) and X.same_expr(dd[0], "coords[1:] - coords[:-1]")
-    mt = [n for n in gr.node.body if isinstance(n, ast.Match)]
-    cases = {}
-    if len(mt) == 1:
-        subj = X.U(mt[0].subject)
-        for c in mt[0].cases:
-            if isinstance(c.pattern, ast.MatchValue):
-                val = Evaluator().ev(c.pattern.value, {})
-                rs = [s for s in c.body if isinstance(s, ast.Return)]
-                cases[val] = (dotted_of(rs[0].value) or "").split(".")[-1] if rs else None
-        ok = ok and subj == "np.cross(directions[0], directions[1])[-1]" and cases == {1: "PATH_LEFT", -1: "PATH_RIGHT"}
-    else:
-        ok = False
+    for tst, tok in table[3:]:
+        m_ = re.match(r"^np\.cross\(directions\[0\], directions\[1\]\)\[-1\] == (-?1)$", tst)
+        if m_:
+            cases[int(m_.group(1))] = tok
+    ok = ok and cases == {1: "PATH_LEFT", -1: "PATH_RIGHT"} and len(table) == 5
     ctx.judge(gr, ok, {"tests": table, "cross_cases": {str(k): v for k, v in cases.items()}},
               "relative direction: next == current -> STAY; next == previous -> BACKWARD; same heading -> FORWARD; otherwise the sign of the (row, col) cross "
               "product heading x next-heading: +1 is LEFT, -1 is RIGHT (facing north (-1,0), turning west (0,-1) gives +1)",
